@@ -10,6 +10,7 @@ import (
 	"sync"
 	"sync/atomic"
 	"testing"
+	"time"
 
 	libshare "github.com/celestiaorg/go-square/v4/share"
 	"github.com/celestiaorg/nmt"
@@ -379,6 +380,35 @@ func (c *c02) square(r *vkit.RNG, idx int, sq, tw *vkit.Square, full bool) {
 					"rows": c02Shape(nd), "err": fmt.Sprint(nd.Verify(sq.Roots, ns))})
 				ok = false
 				continue
+			}
+			// the same producer under a request context that has already ended: it may refuse, but a
+			// result returned as a success is still the whole namespace
+			for _, ck := range []string{"cancelled", "expired"} {
+				ectx, ecancel := context.WithCancel(ctx)
+				if ck == "expired" {
+					ecancel()
+					ectx, ecancel = context.WithDeadline(ctx, time.Unix(1, 0))
+				}
+				ecancel()
+				var end shwap.NamespaceData
+				var eerr error
+				if pn, site := vkit.Recover(func() { end, eerr = eds.NamespaceData(ectx, p.acc, ns) }); pn != nil {
+					c.run.Violation("C02 producer panics @"+site, map[string]any{"producer": p.name, "ctx": ck, "panic": fmt.Sprint(pn), "square": sq.Desc(), "ns": c02NsHex(ns)})
+					continue
+				}
+				c.run.Eval(1)
+				if eerr != nil {
+					c.run.Count("producer/ended-ctx/"+ck+"/refused", 1)
+					continue
+				}
+				c.run.Count("producer/ended-ctx/"+ck+"/answered", 1)
+				if len(rows) > 8 {
+					c.run.Count("producer/ended-ctx/answered-namespace-spanning>8-rows", 1)
+				}
+				if !c.judge(sq, sqKey, tns, "honest/"+p.name+"/ended-ctx", end) {
+					c.run.Violation("C02 producer returns incomplete namespace data as a success when the request context has ended producer="+p.name,
+						map[string]any{"ctx": ck, "square": sq.Desc(), "ns": c02NsHex(ns), "classes": tns.classes, "rows_expected": len(rows), "rows": c02Shape(end)})
+				}
 			}
 			if pi == 0 {
 				honest = nd
